@@ -139,7 +139,7 @@ def describe(job):
 
 
 def model_opts(tname):
-    return copy.deepcopy(fresh(tname) or {})
+    return c16_gen.model_options(copy.deepcopy(fresh(tname)))
 
 
 def inputs(ctx):
@@ -171,7 +171,9 @@ def inputs(ctx):
     # all sequences of up to 2 (thorough: 3) tokens over the small case alphabets, options of that alphabet
     for on, toks in c16_gen.CASE_TOKENS:
         for s in c16_gen.case_token_strings(toks, 2 if quick else 3):
-            add(s, 'ab' if on == 'ab' else rng.choice(['html', 'xml', 'nospecial', 'defaults-explicit']), 'calls:token-sequences')
+            add(s, rng.choice(['ab', 'ab', 'ab-flags', 'ab-xml-flags']) if on == 'ab' else
+                rng.choice(['html', 'xml', 'nospecial', 'defaults-explicit', 'special-flag-true', 'special-falsy-values',
+                            'special-collections']), 'calls:token-sequences')
     # generated option-sensitive documents: as generated, and mutated (delete / insert / replace / truncate / duplicate)
     n_doc = 700 if quick else 12000
     for i in range(n_doc):
